@@ -156,12 +156,26 @@ class Result:
         return "rc=%s timed_out=%s err=%s" % (self.rc, self.timed_out, self.err[-1500:].decode(errors="replace"))
 
 
+MEM_LIMIT = int(os.environ.get("VERIF_MEM_LIMIT_MB", "6000")) * 1024 * 1024
+
+
+def _limit_memory():
+    import resource
+    try:
+        resource.setrlimit(resource.RLIMIT_AS, (MEM_LIMIT, MEM_LIMIT))
+    except (ValueError, OSError):
+        pass
+
+
 def run(exe, args, env=None, stdin=b"", timeout=60, cwd=None):
-    """Run one vjanet process. Returns Result (bytes)."""
+    """Run one vjanet process. Returns Result (bytes). Unsanitised variants run under an
+    address-space limit so that a runaway allocation ends in janet's out-of-memory exit
+    instead of exhausting the machine (sanitizers reserve terabytes of shadow, so not there)."""
     t = time.time()
+    sanitized = "/asan" in exe or "/tsan" in exe
     p = subprocess.Popen([exe] + list(args), stdin=subprocess.PIPE, stdout=subprocess.PIPE,
                          stderr=subprocess.PIPE, env=base_env(env), cwd=cwd,
-                         start_new_session=True)
+                         start_new_session=True, preexec_fn=None if sanitized else _limit_memory)
     try:
         out, err = p.communicate(stdin, timeout=timeout)
         to = False
